@@ -328,6 +328,12 @@ def run_history(history, part, replay):
             part.count('histories_completed')
         if interesting:
             part.nontrivial_case(common.jhash(history))
+    except Exception as e:  # noqa
+        # an operation of the table's interface raised something the history does not call for (the expected NotFound /
+        # ValueError outcomes are handled where they may occur)
+        import traceback
+        part.violation('operation-raised/{}/{}/{}'.format(op['op'], type(e).__name__, cls),
+                       {'step': step, 'op': op, 'error': repr(e)[:300], 'trace': ''.join(traceback.format_tb(e.__traceback__)[-3:])[-600:]}, replay)
     finally:
         try:
             table.close()
